@@ -210,4 +210,31 @@ pub fn generate(opts: &Opts, sink: &mut CaseSink) {
     }
 }
 
-pub const RULE: &str = "real two-input chains (hash inner/left/outer, sort-merge inner/left/outer, broadcast-right hash inner/left, keyed inner/outer, keyed interval join) with 1..3 replicas per side, 1..3 rounds, duplicate keys, keys on one side only, empty sides, every interleaving of the two sides' batches and end markers (biased to let one side run ahead / end first). Non-trivial: >=2 result tuples and >=4 deliveries; distinct = distinct case terms";
+pub const RULE: &str = "whole jobs left.join(right) through the public API: inner / left / outer x hash / broadcast shipping x hash / sort-merge, partially overlapping keys, on local(1), local(3..8) and two loopback hosts with random batch modes, sink multiset against the relational join; real two-input chains (hash inner/left/outer, sort-merge inner/left/outer, broadcast-right hash inner/left, keyed inner/outer, keyed interval join) with 1..3 replicas per side, 1..3 rounds, duplicate keys, keys on one side only, empty sides, every interleaving of the two sides' batches and end markers (biased to let one side run ahead / end first). Non-trivial: >=2 result tuples and >=4 deliveries; distinct = distinct case terms";
+
+/// whole jobs `left.join(right)` through the public API: every variant x hash / broadcast
+/// shipping x hash / sort-merge local algorithm, on local(1), local(3..8) and two loopback
+/// hosts; keys overlap partially so that left / outer variants have unmatched rows on both sides
+pub fn generate_jobs(rng: &mut crate::rng::Rng, sink: &mut CaseSink, rounds: usize) {
+    use crate::pipe::{Deploy, JLocal, JShip, JVar, Mode, Pipe};
+    for _ in 0..rounds {
+        for var in [JVar::Inner, JVar::Left, JVar::Outer] {
+            for ship in [JShip::Hash, JShip::Broadcast] {
+                for local in [JLocal::Hash, JLocal::SortMerge] {
+                    let nl = rng.range(0, 25);
+                    let nr = rng.range(0, 25);
+                    let l: Vec<(i64, i64)> = (0..nl).map(|i| (rng.range(0, 7), 100 + i)).collect();
+                    let r: Vec<(i64, i64)> = (0..nr).map(|i| (rng.range(3, 10), 200 + i)).collect();
+                    let p = Pipe::Join(Box::new(Pipe::Src(rng.chance(3, 4), l)), Box::new(Pipe::Src(rng.chance(3, 4), r)), var, ship, local);
+                    let configs = vec![
+                        (Deploy::Local(1), Mode::Fixed(1024)),
+                        (Deploy::Local(rng.range(3, 8) as u64), crate::pipe::random_mode(rng)),
+                        (Deploy::Remote(vec![2, *rng.pick(&[1u64, 2, 3])]), crate::pipe::random_mode(rng)),
+                    ];
+                    sink.count("join_job");
+                    crate::props::c01::emit(sink, &p, &configs, std::time::Duration::from_secs(60));
+                }
+            }
+        }
+    }
+}
